@@ -3,7 +3,7 @@ from checks import proto_common as pc
 
 QUICK = [
     ("faults", ["req=0:3115b5090142", "req=1:31feb50900", "submit=1", "qq=", "nn=0", "snn=0", "echofaults=0", "readerr=1", "writeerr=1",
-                "buslost=1", "win=03", "longtoany=1"]),
+                "buslost=1", "win=03", "longtoany=1", "lateecho=1"]),
     ("enh-faults", ["enhanced=1", "req=0:3115b5090100", "req=1:31feb50900", "submit=1", "qq=", "nn=0", "snn=0", "echofaults=0", "readerr=1",
                     "buslost=1", "win=03", "longtoany=1"]),
     ("restart", ["req=2:3115b5090100:2", "submit=1", "qq=", "nn=0", "snn=0", "echofaults=0", "win=03", "buslost=1", "longtoany=1"]),
